@@ -274,6 +274,6 @@ pub fn def() -> PropDef {
             "source and server timestamps change together (the property does not say which one the timestamp trigger looks at)",
         ],
         abort_possible: false,
-        parts: |tier| vec![part("filter_history", tier.pick(3000, 80000), case(), run)],
+        parts: |tier| vec![part("filter_history", tier.pick(3000, 6_000_000), case(), run)],
     }
 }
